@@ -18,16 +18,26 @@ theorem mem_of_get {ν : Type} {m : NMap ν} {k : Nat} {v : ν} (h : NMap.get m 
     · rename_i hk; subst hk; cases h; simp
     · exact List.mem_cons_of_mem _ (ih h)
 
-/-- `e` survives a crash that leaves `st`: some file's synced prefix yields it -/
-def Dur (fmt : Format) (crc : Bytes → Nat) (st : Store) (e : Entry) : Prop :=
-  ∃ k f, NMap.get st k = some f ∧ e ∈ fileEntries fmt crc (f.data.take f.synced)
+/-- `e` survives a crash that leaves `st`: some file's synced prefix yields it — or it is
+    stamped below the truncation bound `T` (1 + the largest `TruncateUpTo` threshold so far), in
+    which case the WAL is allowed to have deleted it -/
+def Dur (T : Nat) (fmt : Format) (crc : Bytes → Nat) (st : Store) (e : Entry) : Prop :=
+  (∃ k f, NMap.get st k = some f ∧ e ∈ fileEntries fmt crc (f.data.take f.synced)) ∨ e.ts < T
 
-theorem durable_of_dur {fmt : Format} {crc : Bytes → Nat} {st : Store} {e : Entry} (h : Dur fmt crc st e) :
-    e ∈ durable fmt crc st := by
-  obtain ⟨k, f, hg, he⟩ := h
-  unfold durable recoverAll crashImage
-  rw [List.mem_flatMap]
-  exact ⟨(k, f.data.take f.synced), List.mem_map.mpr ⟨(k, f), mem_of_get hg, rfl⟩, he⟩
+theorem durable_of_dur {T : Nat} {fmt : Format} {crc : Bytes → Nat} {st : Store} {e : Entry}
+    (h : Dur T fmt crc st e) : e ∈ durable fmt crc st ∨ e.ts < T := by
+  rcases h with ⟨k, f, hg, he⟩ | h
+  · left
+    unfold durable recoverAll crashImage
+    rw [List.mem_flatMap]
+    exact ⟨(k, f.data.take f.synced), List.mem_map.mpr ⟨(k, f), mem_of_get hg, rfl⟩, he⟩
+  · exact Or.inr h
+
+theorem Dur.mono_T {T T' : Nat} {fmt : Format} {crc : Bytes → Nat} {st : Store} {e : Entry}
+    (hT : T ≤ T') (h : Dur T fmt crc st e) : Dur T' fmt crc st e := by
+  rcases h with h | h
+  · exact Or.inl h
+  · exact Or.inr (Nat.lt_of_lt_of_le h hT)
 
 /-! ## the file header is accepted whatever the sequence number -/
 
@@ -123,12 +133,12 @@ theorem storeAt_push {w : World} (h : WInv w) (st' : Store) (c : Call) (t : Nat)
     | succ n => rw [hd] at hs; simp at hs
 
 /-- acknowledged-Ok entries are recoverable from every crash image taken at or after the ack -/
-def Safe (fmt : Format) (crc : Bytes → Nat) (acks : List AckRec) (w : World) : Prop :=
-  ∀ a ∈ acks, a.res = .ok → ∀ t st, a.io ≤ t → w.storeAt t = some st → Dur fmt crc st a.entry
+def Safe (T : Nat) (fmt : Format) (crc : Bytes → Nat) (acks : List AckRec) (w : World) : Prop :=
+  ∀ a ∈ acks, a.res = .ok → ∀ t st, a.io ≤ t → w.storeAt t = some st → Dur T fmt crc st a.entry
 
 theorem safe_push {fmt : Format} {crc : Bytes → Nat} {acks : List AckRec} {w : World} (hw : WInv w)
-    (hs : Safe fmt crc acks w) (hat : ∀ a ∈ acks, a.io ≤ w.io) (st' : Store) (c : Call)
-    (hmono : ∀ e, Dur fmt crc w.store e → Dur fmt crc st' e) : Safe fmt crc acks (w.push st' c) := by
+    (hs : Safe T fmt crc acks w) (hat : ∀ a ∈ acks, a.io ≤ w.io) (st' : Store) (c : Call)
+    (hmono : ∀ e, Dur T fmt crc w.store e → Dur T fmt crc st' e) : Safe T fmt crc acks (w.push st' c) := by
   intro a ha hok t st hle hst
   rcases storeAt_push hw st' c t st hst with ⟨_, h⟩ | ⟨_, h⟩
   · exact hs a ha hok t st hle h
@@ -138,8 +148,10 @@ theorem safe_push {fmt : Format} {crc : Bytes → Nat} {acks : List AckRec} {w :
 /-! ## store updates preserve what is durable -/
 
 theorem dur_insert_fresh {fmt : Format} {crc : Bytes → Nat} {st : Store} {k : Nat} {f : File} {e : Entry}
-    (hk : NMap.get st k = none) (h : Dur fmt crc st e) : Dur fmt crc (NMap.insert k f st) e := by
-  obtain ⟨k', g, hg, he⟩ := h
+    (hk : NMap.get st k = none) (h : Dur T fmt crc st e) : Dur T fmt crc (NMap.insert k f st) e := by
+  rcases h with ⟨k', g, hg, he⟩ | h
+  case inr => exact Or.inr h
+  left
   refine ⟨k', g, ?_, he⟩
   rw [NMap.get_insert]
   have : k' ≠ k := by intro hc; subst hc; rw [hk] at hg; cases hg
@@ -147,13 +159,15 @@ theorem dur_insert_fresh {fmt : Format} {crc : Bytes → Nat} {st : Store} {k : 
 
 theorem dur_appendData {fmt : Format} {crc : Bytes → Nat} {st : Store} {k : Nat} {bs : Bytes} {e : Entry}
     (hsyn : ∀ f, NMap.get st k = some f → f.synced ≤ f.data.length)
-    (h : Dur fmt crc st e) : Dur fmt crc (appendData st k bs) e := by
+    (h : Dur T fmt crc st e) : Dur T fmt crc (appendData st k bs) e := by
   unfold appendData
   cases hg : NMap.get st k with
   | none => exact h
   | some f =>
     simp only
-    obtain ⟨k', g, hg', he⟩ := h
+    rcases h with ⟨k', g, hg', he⟩ | h
+    case inr => exact Or.inr h
+    left
     by_cases hk : k' = k
     · subst hk
       rw [hg] at hg'; cases hg'
@@ -166,13 +180,15 @@ theorem dur_appendData {fmt : Format} {crc : Bytes → Nat} {st : Store} {k : Na
 theorem dur_syncFile {fmt : Format} {crc : Bytes → Nat} {st : Store} {k : Nat} {e : Entry}
     (hcl : ∀ f, NMap.get st k = some f →
       ∀ x ∈ fileEntries fmt crc (f.data.take f.synced), x ∈ fileEntries fmt crc f.data)
-    (h : Dur fmt crc st e) : Dur fmt crc (syncFile st k) e := by
+    (h : Dur T fmt crc st e) : Dur T fmt crc (syncFile st k) e := by
   unfold syncFile
   cases hg : NMap.get st k with
   | none => exact h
   | some f =>
     simp only
-    obtain ⟨k', g, hg', he⟩ := h
+    rcases h with ⟨k', g, hg', he⟩ | h
+    case inr => exact Or.inr h
+    left
     by_cases hk : k' = k
     · subst hk
       rw [hg] at hg'; cases hg'
@@ -190,9 +206,16 @@ def CurClean (fmt : Format) (crc : Bytes → Nat) (st : Store) (c : Nat) : Prop 
   ∃ es k syn, NMap.get st c = some ⟨header fmt c ++ encs es, syn⟩ ∧ AllOk fmt crc es ∧ k ≤ es.length ∧
     (syn = 0 ∨ syn = (header fmt c ++ encs (es.take k)).length)
 
+/-- per-file bookkeeping: the synced length is within the file, and what the synced prefix
+    yields is among what the whole file yields (needed when `truncate_before` judges a file by
+    its full contents) -/
+def FileOk (fmt : Format) (crc : Bytes → Nat) (f : File) : Prop :=
+  f.synced ≤ f.data.length ∧
+    ∀ x ∈ fileEntries fmt crc (f.data.take f.synced), x ∈ fileEntries fmt crc f.data
+
 structure RInv (fmt : Format) (crc : Bytes → Nat) (r : Rot) : Prop where
   keys : ∀ k f, NMap.get r.w.store k = some f → k ≤ r.seq
-  syn : ∀ k f, NMap.get r.w.store k = some f → f.synced ≤ f.data.length
+  syn : ∀ k f, NMap.get r.w.store k = some f → FileOk fmt crc f
   cur : ∀ c, r.cur = some c → CurClean fmt crc r.w.store c
   winv : WInv r.w
 
@@ -201,11 +224,11 @@ def InCur (fmt : Format) (crc : Bytes → Nat) (r : Rot) (e : Entry) : Prop :=
   ∃ c f, r.cur = some c ∧ NMap.get r.w.store c = some f ∧ e ∈ fileEntries fmt crc f.data
 
 /-- everything the proof carries through the rotator operations -/
-structure Inv (fmt : Format) (crc : Bytes → Nat) (acks : List AckRec) (pend : List Entry) (r : Rot) : Prop where
+structure Inv (T : Nat) (fmt : Format) (crc : Bytes → Nat) (acks : List AckRec) (pend : List Entry) (r : Rot) : Prop where
   rinv : RInv fmt crc r
-  safe : Safe fmt crc acks r.w
+  safe : Safe T fmt crc acks r.w
   ackio : ∀ a ∈ acks, a.io ≤ r.w.io
-  pend : r.poisoned = false → ∀ e ∈ pend, InCur fmt crc r e ∨ Dur fmt crc r.w.store e
+  pend : r.poisoned = false → ∀ e ∈ pend, InCur fmt crc r e ∨ Dur T fmt crc r.w.store e
 
 theorem curClean_sync_mono {fmt : Format} {crc : Bytes → Nat} {st : Store} {c : Nat} (h : CurClean fmt crc st c) :
     ∀ f, NMap.get st c = some f →
@@ -220,9 +243,10 @@ theorem curClean_sync_mono {fmt : Format} {crc : Bytes → Nat} {st : Store} {c 
 /-- a successful fsync of the current file makes everything in it durable -/
 theorem dur_of_inCur_sync {fmt : Format} {crc : Bytes → Nat} {st : Store} {c : Nat} {f : File} {e : Entry}
     (hg : NMap.get st c = some f) (he : e ∈ fileEntries fmt crc f.data) :
-    Dur fmt crc (syncFile st c) e := by
+    Dur T fmt crc (syncFile st c) e := by
   unfold syncFile
   rw [hg]
+  left
   refine ⟨c, { f with synced := f.data.length }, by rw [NMap.get_insert, if_pos rfl], ?_⟩
   simp only
   rw [List.take_length]
@@ -231,16 +255,16 @@ theorem dur_of_inCur_sync {fmt : Format} {crc : Bytes → Nat} {st : Store} {c :
 /-! ### `ioSync` on the current file -/
 
 theorem inv_ioSync {fmt : Format} {crc : Bytes → Nat} {acks : List AckRec} {pend : List Entry} {r : Rot} {c : Nat}
-    (φ : Nat → Outcome) (h : Inv fmt crc acks pend r) (hc : r.cur = some c) :
+    (φ : Nat → Outcome) (h : Inv T fmt crc acks pend r) (hc : r.cur = some c) :
     let res := ioSync φ r.w c
     -- with the writer dropped afterwards (as `rotate` does)
-    Inv fmt crc acks pend { r with w := res.1, cur := none, poisoned := r.poisoned || !res.2 } ∧
+    Inv T fmt crc acks pend { r with w := res.1, cur := none, poisoned := r.poisoned || !res.2 } ∧
     -- with the writer kept (as `sync` does)
-    Inv fmt crc acks pend { r with w := res.1, poisoned := r.poisoned || !res.2 } ∧
-    (res.2 = true → r.poisoned = false → ∀ e ∈ pend, Dur fmt crc res.1.store e) ∧
+    Inv T fmt crc acks pend { r with w := res.1, poisoned := r.poisoned || !res.2 } ∧
+    (res.2 = true → r.poisoned = false → ∀ e ∈ pend, Dur T fmt crc res.1.store e) ∧
     res.1.io = r.w.io + 1 ∧ WInv res.1 := by
   have hcl := h.rinv.cur c hc
-  have hmono : ∀ e, Dur fmt crc r.w.store e → Dur fmt crc (syncFile r.w.store c) e :=
+  have hmono : ∀ e, Dur T fmt crc r.w.store e → Dur T fmt crc (syncFile r.w.store c) e :=
     fun e he => dur_syncFile (curClean_sync_mono hcl) he
   unfold ioSync
   cases hφ : φ r.w.io with
@@ -257,7 +281,7 @@ theorem inv_ioSync {fmt : Format} {crc : Bytes → Nat} {acks : List AckRec} {pe
         split at hk
         · rename_i hkc; subst hkc; exact h.rinv.keys k g hg
         · exact h.rinv.keys k f hk
-    have hsyn : ∀ k f, NMap.get (syncFile r.w.store c) k = some f → f.synced ≤ f.data.length := by
+    have hsyn : ∀ k f, NMap.get (syncFile r.w.store c) k = some f → FileOk fmt crc f := by
       intro k f hk
       unfold syncFile at hk
       cases hg : NMap.get r.w.store c with
@@ -266,9 +290,10 @@ theorem inv_ioSync {fmt : Format} {crc : Bytes → Nat} {acks : List AckRec} {pe
         rw [hg] at hk; simp only at hk
         rw [NMap.get_insert] at hk
         split at hk
-        · cases hk; simp
+        · cases hk
+          exact ⟨by simp, fun x hx => by simpa [List.take_length] using hx⟩
         · exact h.rinv.syn k f hk
-    have hpd : r.poisoned = false → ∀ e ∈ pend, Dur fmt crc (syncFile r.w.store c) e := by
+    have hpd : r.poisoned = false → ∀ e ∈ pend, Dur T fmt crc (syncFile r.w.store c) e := by
       intro hp e he
       rcases h.pend hp e he with ⟨c', f, hc', hg, hef⟩ | hd
       · rw [hc] at hc'; cases hc'
@@ -345,9 +370,11 @@ theorem keys_appendData {st : Store} {n : Nat} (k : Nat) (bs : Bytes)
     | some g => exact h k' g hs
   · exact h k' f hg
 
-theorem syn_appendData {st : Store} (k : Nat) (bs : Bytes)
-    (h : ∀ k' f, NMap.get st k' = some f → f.synced ≤ f.data.length) :
-    ∀ k' f, NMap.get (appendData st k bs) k' = some f → f.synced ≤ f.data.length := by
+theorem syn_appendData {fmt : Format} {crc : Bytes → Nat} {st : Store} (k : Nat) (bs : Bytes)
+    (h : ∀ k' f, NMap.get st k' = some f → FileOk fmt crc f)
+    (happ : ∀ f, NMap.get st k = some f →
+      ∀ x ∈ fileEntries fmt crc f.data, x ∈ fileEntries fmt crc (f.data ++ bs)) :
+    ∀ k' f, NMap.get (appendData st k bs) k' = some f → FileOk fmt crc f := by
   intro k' f hg
   rw [get_appendData] at hg
   split at hg
@@ -357,61 +384,67 @@ theorem syn_appendData {st : Store} (k : Nat) (bs : Bytes)
     | some g =>
       rw [hs] at hg; simp only [Option.map_some, Option.some.injEq] at hg
       subst hg
-      simp only [List.length_append]
-      have := h k' g hs
-      omega
+      obtain ⟨h1, h2⟩ := h k' g hs
+      refine ⟨by simp only [List.length_append]; omega, fun x hx => ?_⟩
+      simp only at hx ⊢
+      rw [List.take_append_of_le_length h1] at hx
+      exact happ g hs x (h2 x hx)
   · exact h k' f hg
 
 /-- the part of the invariant that does not mention the current writer or the pending set -/
-structure Base (fmt : Format) (crc : Bytes → Nat) (acks : List AckRec) (n : Nat) (w : World) : Prop where
+structure Base (T : Nat) (fmt : Format) (crc : Bytes → Nat) (acks : List AckRec) (n : Nat) (w : World) : Prop where
   keys : ∀ k f, NMap.get w.store k = some f → k ≤ n
-  syn : ∀ k f, NMap.get w.store k = some f → f.synced ≤ f.data.length
+  syn : ∀ k f, NMap.get w.store k = some f → FileOk fmt crc f
   winv : WInv w
-  safe : Safe fmt crc acks w
+  safe : Safe T fmt crc acks w
   ackio : ∀ a ∈ acks, a.io ≤ w.io
 
 theorem Inv.base {fmt : Format} {crc : Bytes → Nat} {acks : List AckRec} {pend : List Entry} {r : Rot}
-    (h : Inv fmt crc acks pend r) : Base fmt crc acks r.seq r.w :=
+    (h : Inv T fmt crc acks pend r) : Base T fmt crc acks r.seq r.w :=
   ⟨h.rinv.keys, h.rinv.syn, h.rinv.winv, h.safe, h.ackio⟩
 
 theorem Base.mono_n {fmt : Format} {crc : Bytes → Nat} {acks : List AckRec} {n m : Nat} {w : World}
-    (h : Base fmt crc acks n w) (hnm : n ≤ m) : Base fmt crc acks m w :=
+    (h : Base T fmt crc acks n w) (hnm : n ≤ m) : Base T fmt crc acks m w :=
   ⟨fun k f hk => Nat.le_trans (h.keys k f hk) hnm, h.syn, h.winv, h.safe, h.ackio⟩
 
 /-- pushing a store that only grows what is durable keeps the base invariant -/
 theorem Base.push {fmt : Format} {crc : Bytes → Nat} {acks : List AckRec} {n : Nat} {w : World}
-    (h : Base fmt crc acks n w) (st' : Store) (c : Call)
+    (h : Base T fmt crc acks n w) (st' : Store) (c : Call)
     (hkeys : ∀ k f, NMap.get st' k = some f → k ≤ n)
-    (hsyn : ∀ k f, NMap.get st' k = some f → f.synced ≤ f.data.length)
-    (hmono : ∀ e, Dur fmt crc w.store e → Dur fmt crc st' e) : Base fmt crc acks n (w.push st' c) :=
+    (hsyn : ∀ k f, NMap.get st' k = some f → FileOk fmt crc f)
+    (hmono : ∀ e, Dur T fmt crc w.store e → Dur T fmt crc st' e) : Base T fmt crc acks n (w.push st' c) :=
   ⟨hkeys, hsyn, winv_push h.winv _ _, safe_push h.winv h.safe h.ackio st' c hmono,
     fun a ha => by rw [io_push]; exact Nat.le_succ_of_le (h.ackio a ha)⟩
 
 theorem base_ioAppend {fmt : Format} {crc : Bytes → Nat} {acks : List AckRec} {n : Nat} {w : World}
-    (φ : Nat → Outcome) (h : Base fmt crc acks n w) (k : Nat) (bs : Bytes) :
-    Base fmt crc acks n (ioAppend φ w k bs).1 ∧
-    (∀ e, Dur fmt crc w.store e → Dur fmt crc (ioAppend φ w k bs).1.store e) ∧
+    (φ : Nat → Outcome) (h : Base T fmt crc acks n w) (k : Nat) (bs : Bytes)
+    (happ : ∀ f, NMap.get w.store k = some f → ∀ bs',
+      ∀ x ∈ fileEntries fmt crc f.data, x ∈ fileEntries fmt crc (f.data ++ bs')) :
+    Base T fmt crc acks n (ioAppend φ w k bs).1 ∧
+    (∀ e, Dur T fmt crc w.store e → Dur T fmt crc (ioAppend φ w k bs).1.store e) ∧
     ((ioAppend φ w k bs).2 = none → (ioAppend φ w k bs).1.store = appendData w.store k bs) := by
   unfold ioAppend
   cases hφ : φ w.io with
   | ok =>
     simp only
-    exact ⟨h.push _ _ (keys_appendData k bs h.keys) (syn_appendData k bs h.syn)
-      (fun e he => dur_appendData (fun f hf => h.syn k f hf) he),
-      fun e he => dur_appendData (fun f hf => h.syn k f hf) he, fun _ => rfl⟩
+    exact ⟨h.push _ _ (keys_appendData k bs h.keys)
+      (syn_appendData k bs h.syn (fun f hf => happ f hf bs))
+      (fun e he => dur_appendData (fun f hf => (h.syn k f hf).1) he),
+      fun e he => dur_appendData (fun f hf => (h.syn k f hf).1) he, fun _ => rfl⟩
   | torn j =>
     simp only
-    exact ⟨h.push _ _ (keys_appendData k _ h.keys) (syn_appendData k _ h.syn)
-      (fun e he => dur_appendData (fun f hf => h.syn k f hf) he),
-      fun e he => dur_appendData (fun f hf => h.syn k f hf) he, fun hc => by cases hc⟩
+    exact ⟨h.push _ _ (keys_appendData k _ h.keys)
+      (syn_appendData k _ h.syn (fun f hf => happ f hf _))
+      (fun e he => dur_appendData (fun f hf => (h.syn k f hf).1) he),
+      fun e he => dur_appendData (fun f hf => (h.syn k f hf).1) he, fun hc => by cases hc⟩
   | fail | diskFull =>
     simp only
     exact ⟨h.push _ _ h.keys h.syn (fun _ he => he), fun _ he => he, fun hc => by cases hc⟩
 
 theorem base_ioCreate {fmt : Format} {crc : Bytes → Nat} {acks : List AckRec} {n : Nat} {w : World}
-    (φ : Nat → Outcome) (h : Base fmt crc acks n w) :
-    Base fmt crc acks (n + 1) (ioCreate φ w (n + 1)).1 ∧
-    (∀ e, Dur fmt crc w.store e → Dur fmt crc (ioCreate φ w (n + 1)).1.store e) ∧
+    (φ : Nat → Outcome) (h : Base T fmt crc acks n w) :
+    Base T fmt crc acks (n + 1) (ioCreate φ w (n + 1)).1 ∧
+    (∀ e, Dur T fmt crc w.store e → Dur T fmt crc (ioCreate φ w (n + 1)).1.store e) ∧
     ((ioCreate φ w (n + 1)).2 = none →
       NMap.get (ioCreate φ w (n + 1)).1.store (n + 1) = some ⟨[], 0⟩) := by
   have hfresh : NMap.get w.store (n + 1) = none := by
@@ -435,7 +468,8 @@ theorem base_ioCreate {fmt : Format} {crc : Bytes → Nat} {acks : List AckRec} 
     · intro k f hk
       rw [NMap.get_insert] at hk
       split at hk
-      · cases hk; simp
+      · cases hk
+        exact ⟨by simp, fun x hx => by simpa using hx⟩
       · exact h.syn k f hk
   | fail | torn _ | diskFull =>
     simp only
@@ -446,23 +480,23 @@ theorem base_ioCreate {fmt : Format} {crc : Bytes → Nat} {acks : List AckRec} 
 
 /-- build the invariant of a rotator without a current writer from the base part -/
 theorem inv_of_base_nocur {fmt : Format} {crc : Bytes → Nat} {acks : List AckRec} {pend : List Entry} {r : Rot}
-    (hb : Base fmt crc acks r.seq r.w) (hc : r.cur = none)
-    (hp : r.poisoned = false → ∀ e ∈ pend, Dur fmt crc r.w.store e) : Inv fmt crc acks pend r :=
+    (hb : Base T fmt crc acks r.seq r.w) (hc : r.cur = none)
+    (hp : r.poisoned = false → ∀ e ∈ pend, Dur T fmt crc r.w.store e) : Inv T fmt crc acks pend r :=
   ⟨⟨hb.keys, hb.syn, (fun c hcc => by rw [hc] at hcc; cases hcc), hb.winv⟩, hb.safe, hb.ackio,
     fun hpz e he => Or.inr (hp hpz e he)⟩
 
 /-- without a current writer every pending entry that is claimed is already durable -/
 theorem pend_dur_of_nocur {fmt : Format} {crc : Bytes → Nat} {acks : List AckRec} {pend : List Entry} {r : Rot}
-    (h : Inv fmt crc acks pend r) (hc : r.cur = none) :
-    r.poisoned = false → ∀ e ∈ pend, Dur fmt crc r.w.store e := by
+    (h : Inv T fmt crc acks pend r) (hc : r.cur = none) :
+    r.poisoned = false → ∀ e ∈ pend, Dur T fmt crc r.w.store e := by
   intro hp e he
   rcases h.pend hp e he with ⟨c, f, hcc, _, _⟩ | hd
   · rw [hc] at hcc; cases hcc
   · exact hd
 
 theorem inv_close {fmt : Format} {crc : Bytes → Nat} {acks : List AckRec} {pend : List Entry} {r : Rot}
-    (fix : Bool) (φ : Nat → Outcome) (h : Inv fmt crc acks pend r) :
-    Inv fmt crc acks pend (Rot.close fix φ r) ∧ (Rot.close fix φ r).cur = none ∧
+    (fix : Bool) (φ : Nat → Outcome) (h : Inv T fmt crc acks pend r) :
+    Inv T fmt crc acks pend (Rot.close fix φ r) ∧ (Rot.close fix φ r).cur = none ∧
       (Rot.close fix φ r).seq = r.seq := by
   unfold Rot.close
   cases hc : r.cur with
@@ -476,8 +510,8 @@ theorem inv_close {fmt : Format} {crc : Bytes → Nat} {acks : List AckRec} {pen
         (fun hp => by cases hp)⟩, rfl, rfl⟩
 
 theorem inv_rotate {fmt : Format} {crc : Bytes → Nat} {acks : List AckRec} {pend : List Entry} {r : Rot}
-    (fix : Bool) (φ : Nat → Outcome) (h : Inv fmt crc acks pend r) :
-    Inv fmt crc acks pend (Rot.rotate fix fmt φ r).1 ∧
+    (fix : Bool) (φ : Nat → Outcome) (h : Inv T fmt crc acks pend r) :
+    Inv T fmt crc acks pend (Rot.rotate fix fmt φ r).1 ∧
     ((Rot.rotate fix fmt φ r).2 = none → ∃ c, (Rot.rotate fix fmt φ r).1.cur = some c) ∧
     ((Rot.rotate fix fmt φ r).2 ≠ none → (Rot.rotate fix fmt φ r).1.cur = none) := by
   obtain ⟨h1, hc1, _⟩ := inv_close fix φ h
@@ -499,7 +533,10 @@ theorem inv_rotate {fmt : Format} {crc : Bytes → Nat} {acks : List AckRec} {pe
       simp only
       have gc' := gc rfl
       obtain ⟨ba, ma, ga⟩ := base_ioAppend (fmt := fmt) (crc := crc) (acks := acks) φ bc (r1.seq + 1)
-        (header fmt (r1.seq + 1))
+        (header fmt (r1.seq + 1)) (by
+          intro f hf bs' x hx
+          rw [gc'] at hf; cases hf
+          rw [fileEntries_nil] at hx; cases hx)
       cases hap : ioAppend φ w' (r1.seq + 1) (header fmt (r1.seq + 1)) with
       | mk w'' oe2 =>
         rw [hap] at ba ma ga
@@ -525,13 +562,19 @@ theorem inv_rotate {fmt : Format} {crc : Bytes → Nat} {acks : List AckRec} {pe
 
 
 theorem inv_appendTo {fmt : Format} {crc : Bytes → Nat} {acks : List AckRec} {pend : List Entry} {r : Rot}
-    (φ : Nat → Outcome) (h : Inv fmt crc acks pend r) (hcur : ∃ c, r.cur = some c) (e : Entry)
+    (φ : Nat → Outcome) (h : Inv T fmt crc acks pend r) (hcur : ∃ c, r.cur = some c) (e : Entry)
     (he : e.Good fmt crc) :
-    ((Rot.appendTo φ r e).2 = none → Inv fmt crc acks (pend ++ [e]) (Rot.appendTo φ r e).1) ∧
-    (∀ x, (Rot.appendTo φ r e).2 = some x → Inv fmt crc acks pend (Rot.appendTo φ r e).1) := by
+    ((Rot.appendTo φ r e).2 = none → Inv T fmt crc acks (pend ++ [e]) (Rot.appendTo φ r e).1) ∧
+    (∀ x, (Rot.appendTo φ r e).2 = some x → Inv T fmt crc acks pend (Rot.appendTo φ r e).1) := by
   obtain ⟨c, hc⟩ := hcur
   obtain ⟨es, k, syn, hg, hok, hk, hs⟩ := h.rinv.cur c hc
-  obtain ⟨ba, ma, ga⟩ := base_ioAppend (fmt := fmt) (crc := crc) (acks := acks) φ h.base c e.encode
+  obtain ⟨ba, ma, ga⟩ := base_ioAppend (fmt := fmt) (crc := crc) (acks := acks) φ h.base c e.encode (by
+    intro f hf bs' x hx
+    rw [hg] at hf; cases hf
+    simp only at hx ⊢
+    rw [fileEntries_clean fmt crc c es hok] at hx
+    rw [List.append_assoc, fileEntries_header, entries_encs_append fmt crc es bs' hok]
+    exact List.mem_append_left _ hx)
   unfold Rot.appendTo
   rw [hc]
   simp only
@@ -588,10 +631,10 @@ theorem needsNew_false_cur {r : Rot} (h : r.needsNew = false) : ∃ c, r.cur = s
   | some c => exact ⟨c, rfl⟩
 
 theorem inv_append {fmt : Format} {crc : Bytes → Nat} {acks : List AckRec} {pend : List Entry} {r : Rot}
-    (fix : Bool) (φ : Nat → Outcome) (h : Inv fmt crc acks pend r) (e : Entry)
+    (fix : Bool) (φ : Nat → Outcome) (h : Inv T fmt crc acks pend r) (e : Entry)
     (he : e.Good fmt crc) :
-    ((Rot.append fix fmt φ r e).2 = none → Inv fmt crc acks (pend ++ [e]) (Rot.append fix fmt φ r e).1) ∧
-    (∀ x, (Rot.append fix fmt φ r e).2 = some x → Inv fmt crc acks pend (Rot.append fix fmt φ r e).1) := by
+    ((Rot.append fix fmt φ r e).2 = none → Inv T fmt crc acks (pend ++ [e]) (Rot.append fix fmt φ r e).1) ∧
+    (∀ x, (Rot.append fix fmt φ r e).2 = some x → Inv T fmt crc acks pend (Rot.append fix fmt φ r e).1) := by
   unfold Rot.append
   cases hn : r.needsNew with
   | false =>
@@ -620,9 +663,9 @@ theorem storeAt_le {w : World} (h : WInv w) {t : Nat} {st : Store} (hs : w.store
 
 /-- acks sent "now" for entries that are durable "now" may be added -/
 theorem inv_add_acks {fmt : Format} {crc : Bytes → Nat} {acks new : List AckRec} {pend : List Entry} {r : Rot}
-    (h : Inv fmt crc acks pend r)
-    (hn : ∀ a ∈ new, a.io = r.w.io ∧ (a.res = .ok → Dur fmt crc r.w.store a.entry)) :
-    Inv fmt crc (new ++ acks) pend r := by
+    (h : Inv T fmt crc acks pend r)
+    (hn : ∀ a ∈ new, a.io = r.w.io ∧ (a.res = .ok → Dur T fmt crc r.w.store a.entry)) :
+    Inv T fmt crc (new ++ acks) pend r := by
   refine ⟨h.rinv, ?_, ?_, h.pend⟩
   · intro a ha hok t st hle hst
     rcases List.mem_append.mp ha with h1 | h1
@@ -641,10 +684,10 @@ theorem inv_add_acks {fmt : Format} {crc : Bytes → Nat} {acks new : List AckRe
     · exact h.ackio a h1
 
 theorem inv_sync {fmt : Format} {crc : Bytes → Nat} {acks : List AckRec} {pend : List Entry} {r : Rot}
-    (fix : Bool) (φ : Nat → Outcome) (h : Inv fmt crc acks pend r)
+    (fix : Bool) (φ : Nat → Outcome) (h : Inv T fmt crc acks pend r)
     (hq : fix = true ∨ r.poisoned = false) :
-    Inv fmt crc acks [] (Rot.sync fix φ r).1 ∧
-    ((Rot.sync fix φ r).2 = true → ∀ e ∈ pend, Dur fmt crc (Rot.sync fix φ r).1.w.store e) := by
+    Inv T fmt crc acks [] (Rot.sync fix φ r).1 ∧
+    ((Rot.sync fix φ r).2 = true → ∀ e ∈ pend, Dur T fmt crc (Rot.sync fix φ r).1.w.store e) := by
   unfold Rot.sync
   by_cases hfp : (fix && r.poisoned) = true
   · rw [if_pos hfp]
@@ -668,10 +711,167 @@ theorem inv_sync {fmt : Format} {crc : Bytes → Nat} {acks : List AckRec} {pend
         hk.rinv.winv⟩, hk.safe, hk.ackio, (fun _ e he => by cases he)⟩, (fun hok => hd hok hpz)⟩
 
 
+/-! ## weakening -/
+
+theorem Inv.mono_T {T T' : Nat} {fmt : Format} {crc : Bytes → Nat} {acks : List AckRec}
+    {pend : List Entry} {r : Rot} (hT : T ≤ T') (h : Inv T fmt crc acks pend r) :
+    Inv T' fmt crc acks pend r :=
+  ⟨h.rinv, fun a ha hok t st hle hst => (h.safe a ha hok t st hle hst).mono_T hT, h.ackio,
+    fun hp e he => (h.pend hp e he).imp id (Dur.mono_T hT)⟩
+
+theorem Inv.pend_sub {T : Nat} {fmt : Format} {crc : Bytes → Nat} {acks : List AckRec}
+    {pend pend' : List Entry} {r : Rot} (hs : ∀ e ∈ pend', e ∈ pend) (h : Inv T fmt crc acks pend r) :
+    Inv T fmt crc acks pend' r :=
+  ⟨h.rinv, h.safe, h.ackio, fun hp e he => h.pend hp e (hs e he)⟩
+
+/-! ## `truncate_before` on the live store -/
+
+theorem get_deleteFile (st : Store) (k k' : Nat) :
+    NMap.get (deleteFile st k) k' = if k' = k then none else NMap.get st k' := by
+  unfold deleteFile
+  induction st with
+  | nil => simp [NMap.get]
+  | cons p st ih =>
+    obtain ⟨kp, vp⟩ := p
+    simp only [List.filter_cons]
+    by_cases hkp : kp = k
+    · subst hkp
+      simp only [bne_self_eq_false, Bool.false_eq_true, if_false]
+      rw [ih]
+      simp only [NMap.get]
+      by_cases h : k' = kp
+      · simp [h]
+      · simp [h]
+    · have : (kp != k) = true := by simpa using hkp
+      simp only [this, if_true, NMap.get]
+      rw [ih]
+      by_cases h : k' = kp
+      · subst h; simp [hkp]
+      · simp [h]
+
+theorem deletable_ts (fmt : Format) (crc : Bytes → Nat) (thr : Nat) (bs : Bytes)
+    (h : deletable fmt crc thr bs = true) : ∀ e ∈ fileEntries fmt crc bs, e.ts ≤ thr := by
+  intro e he
+  unfold deletable at h
+  unfold fileEntries at he
+  cases hr : readFile fmt crc bs with
+  | none => rw [hr] at he; cases he
+  | some es =>
+    rw [hr] at h he
+    simp only [Bool.or_eq_true, List.isEmpty_iff, decide_eq_true_eq] at h he
+    rcases h with h | h
+    · subst h; cases he
+    · exact Nat.le_trans (le_maxTs he) h
+
+/-- deleting a file that is not the current writer's and whose readable entries are all
+    stamped ≤ `thr < T` keeps the invariant (what it held is exempt from the durability claim) -/
+theorem inv_ioDelete {T : Nat} {fmt : Format} {crc : Bytes → Nat} {acks : List AckRec}
+    {pend : List Entry} {r : Rot} (φ : Nat → Outcome) (k thr : Nat)
+    (h : Inv T fmt crc acks pend r) (hcur : r.cur ≠ some k) (hT : thr < T)
+    (hdel : ∀ f, NMap.get r.w.store k = some f → deletable fmt crc thr f.data = true) :
+    Inv T fmt crc acks pend { r with w := (ioDelete φ r.w k).1 } := by
+  unfold ioDelete
+  cases hφ : φ r.w.io with
+  | ok =>
+    simp only
+    have hget : ∀ k' f, NMap.get (deleteFile r.w.store k) k' = some f → NMap.get r.w.store k' = some f := by
+      intro k' f hk
+      rw [get_deleteFile] at hk
+      split at hk
+      · cases hk
+      · exact hk
+    have hmono : ∀ e, Dur T fmt crc r.w.store e → Dur T fmt crc (deleteFile r.w.store k) e := by
+      intro e he
+      rcases he with ⟨k', g, hg, hx⟩ | he
+      · by_cases hk : k' = k
+        · subst hk
+          right
+          have := deletable_ts fmt crc thr g.data (hdel g hg) e ((h.rinv.syn k' g hg).2 e hx)
+          omega
+        · left
+          exact ⟨k', g, by rw [get_deleteFile, if_neg hk, hg], hx⟩
+      · exact Or.inr he
+    refine ⟨⟨fun k' f hk => h.rinv.keys k' f (hget k' f hk), fun k' f hk => h.rinv.syn k' f (hget k' f hk),
+      ?_, winv_push h.rinv.winv _ _⟩,
+      safe_push h.rinv.winv h.safe h.ackio _ _ hmono,
+      (fun a ha => by rw [io_push]; exact Nat.le_succ_of_le (h.ackio a ha)), ?_⟩
+    · intro c hc
+      obtain ⟨es, kk, syn, hg, hrest⟩ := h.rinv.cur c hc
+      refine ⟨es, kk, syn, ?_, hrest⟩
+      show NMap.get (deleteFile r.w.store k) c = _
+      rw [get_deleteFile, if_neg (by intro hck; subst hck; exact hcur hc), hg]
+    · intro hp e he
+      rcases h.pend hp e he with ⟨c, f, hc, hg, hx⟩ | hd
+      · left
+        refine ⟨c, f, hc, ?_, hx⟩
+        show NMap.get (deleteFile r.w.store k) c = _
+        rw [get_deleteFile, if_neg (by intro hck; subst hck; exact hcur hc), hg]
+      · exact Or.inr (hmono e hd)
+  | fail | torn _ | diskFull =>
+    simp only
+    exact ⟨⟨h.rinv.keys, h.rinv.syn, h.rinv.cur, winv_push h.rinv.winv _ _⟩,
+      safe_push h.rinv.winv h.safe h.ackio _ _ (fun _ he => he),
+      (fun a ha => by rw [io_push]; exact Nat.le_succ_of_le (h.ackio a ha)), h.pend⟩
+
+theorem inv_truncLoop {T : Nat} {fmt : Format} {crc : Bytes → Nat} {acks : List AckRec}
+    {pend : List Entry} (φ : Nat → Outcome) (thr : Nat) (hT : thr < T) (r : Rot) (victims : List Nat)
+    (w : World) (h : Inv T fmt crc acks pend { r with w := w })
+    (hv : ∀ k ∈ victims, r.cur ≠ some k ∧
+      ∀ f, NMap.get w.store k = some f → deletable fmt crc thr f.data = true) :
+    Inv T fmt crc acks pend { r with w := truncLoop φ victims w } := by
+  induction victims generalizing w with
+  | nil => exact h
+  | cons k rest ih =>
+    simp only [truncLoop]
+    have hk := hv k (by simp)
+    have h1 := inv_ioDelete (r := { r with w := w }) φ k thr h hk.1 hT hk.2
+    cases hd : ioDelete φ w k with
+    | mk w' ok =>
+      simp only [hd] at h1
+      cases ok with
+      | false => exact h1
+      | true =>
+        simp only
+        apply ih w' h1
+        intro k' hk'
+        refine ⟨(hv k' (List.mem_cons_of_mem _ hk')).1, fun f hf => ?_⟩
+        apply (hv k' (List.mem_cons_of_mem _ hk')).2 f
+        -- a file still present after the deletion was present before
+        unfold ioDelete at hd
+        cases hφ : φ w.io with
+        | ok =>
+          rw [hφ] at hd
+          simp only [Prod.mk.injEq] at hd
+          rw [← hd.1] at hf
+          change NMap.get (deleteFile w.store k) k' = some f at hf
+          rw [get_deleteFile] at hf
+          split at hf
+          · cases hf
+          · exact hf
+        | fail | torn _ | diskFull =>
+          rw [hφ] at hd
+          simp only [Prod.mk.injEq] at hd
+          cases hd.2
+
+theorem inv_truncate {T : Nat} {fmt : Format} {crc : Bytes → Nat} {acks : List AckRec}
+    {pend : List Entry} {r : Rot} (φ : Nat → Outcome) (thr : Nat) (hT : thr < T)
+    (h : Inv T fmt crc acks pend r) : Inv T fmt crc acks pend (Rot.truncate fmt crc φ thr r) := by
+  unfold Rot.truncate
+  simp only
+  apply inv_truncLoop φ thr hT r _ r.w h
+  intro k hk
+  rw [List.mem_filter] at hk
+  have hc := hk.2
+  simp only [Bool.and_eq_true, bne_iff_ne, ne_eq] at hc
+  refine ⟨hc.1, fun f hf => ?_⟩
+  have := hc.2
+  rw [hf] at this
+  exact this
+
 /-! ## the actor -/
 
 def AInv (fmt : Format) (crc : Bytes → Nat) (a : Actor) : Prop :=
-  Inv fmt crc a.acks (a.pending.map (·.2)) a.rot
+  Inv a.tbound fmt crc a.acks (a.pending.map (·.2)) a.rot
 
 theorem inv_init (fmt : Format) (crc : Bytes → Nat) (maxSize : Nat) : AInv fmt crc (Actor.init maxSize) := by
   refine ⟨⟨?_, ?_, ?_, winv_init⟩, ?_, ?_, ?_⟩
@@ -708,6 +908,29 @@ theorem ainv_handleWrite {fmt : Format} {crc : Bytes → Nat} {a : Actor} (fix :
           exact ⟨rfl, fun hc => by cases hc⟩)
       simpa using this
 
+theorem ainv_handleForget {fmt : Format} {crc : Bytes → Nat} {a : Actor} (fix : Bool) (φ : Nat → Outcome)
+    (h : AInv fmt crc a) (w : Write) (hw : w.Ok fmt crc) : AInv fmt crc (Actor.handleForget fix φ fmt crc a w) := by
+  unfold Actor.handleForget
+  obtain ⟨h1, h2⟩ := inv_append fix φ h (Entry.mk' fmt crc w.data w.ts) ⟨hw.1, rfl, hw.2⟩
+  cases hr : Rot.append fix fmt φ a.rot (Entry.mk' fmt crc w.data w.ts) with
+  | mk r oe =>
+    rw [hr] at h1 h2
+    cases oe with
+    | none =>
+      simp only
+      unfold AInv
+      exact (h1 rfl).pend_sub (fun e he => List.mem_append_left _ he)
+    | some x =>
+      simp only
+      exact h2 x rfl
+
+theorem ainv_handleTruncate {fmt : Format} {crc : Bytes → Nat} {a : Actor} (φ : Nat → Outcome)
+    (h : AInv fmt crc a) (thr : Nat) : AInv fmt crc (Actor.handleTruncate φ fmt crc a thr) := by
+  unfold Actor.handleTruncate AInv
+  simp only
+  apply inv_truncate φ thr (Nat.lt_of_lt_of_le (Nat.lt_succ_self thr) (Nat.le_max_right _ _))
+  exact Inv.mono_T (Nat.le_max_left _ _) h
+
 theorem ainv_flush {fmt : Format} {crc : Bytes → Nat} {a : Actor} (fix : Bool) (φ : Nat → Outcome)
     (h : AInv fmt crc a) (hq : fix = true ∨ a.esync = 0 ∨ a.rot.poisoned = false) :
     AInv fmt crc (Actor.flush fix φ a) := by
@@ -737,22 +960,35 @@ theorem ainv_flush {fmt : Format} {crc : Bytes → Nat} {a : Actor} (fix : Bool)
       | false => simp at hok
       | true => exact h2 rfl p.2 (List.mem_map.mpr ⟨p, hp, rfl⟩)
 
-/-- the decidable side condition of the partial theorem about the PINNED code: when a group
+/-- the decidable side condition of the partial theorem about the OLD rotator: when a group
     fsync is about to acknowledge entries, no writer has been dropped (by a rotation or an append
     error) since the previous one -/
 def Actor.quietStep (a : Actor) : Ev → Bool
   | .flush => a.esync == 0 || !a.rot.poisoned
-  | .write _ => true
+  | _ => true
 
 def Actor.quiet (φ : Nat → Outcome) (fmt : Format) (crc : Bytes → Nat) : List Ev → Actor → Bool
   | [], _ => true
-  | ev :: evs, a => a.quietStep ev && Actor.quiet φ fmt crc evs (Actor.step false φ fmt crc a ev)
+  | ev :: evs, a => a.quietStep ev && Actor.quiet φ fmt crc evs (Actor.step false false φ fmt crc a ev)
 
+/-- the payloads of the write events (durable or fire-and-forget) fit -/
+def Ev.Ok (fmt : Format) (crc : Bytes → Nat) : Ev → Prop
+  | .write w => w.Ok fmt crc
+  | .forget w => w.Ok fmt crc
+  | _ => True
+
+instance (fmt : Format) (crc : Bytes → Nat) : DecidablePred (Ev.Ok fmt crc) := fun ev => by
+  cases ev <;> simp only [Ev.Ok] <;> infer_instance
+
+/-- one step of the CURRENT actor (`tickSyncs = false`: a `SyncTick` is a no-op in Always mode) -/
 theorem ainv_step {fmt : Format} {crc : Bytes → Nat} {a : Actor} (fix : Bool) (φ : Nat → Outcome)
-    (h : AInv fmt crc a) (ev : Ev) (hw : ∀ w, ev = .write w → w.Ok fmt crc)
-    (hq : fix = true ∨ a.quietStep ev = true) : AInv fmt crc (Actor.step fix φ fmt crc a ev) := by
+    (h : AInv fmt crc a) (ev : Ev) (hw : ev.Ok fmt crc)
+    (hq : fix = true ∨ a.quietStep ev = true) : AInv fmt crc (Actor.step fix false φ fmt crc a ev) := by
   cases ev with
-  | write w => exact ainv_handleWrite fix φ h w (hw w rfl)
+  | write w => exact ainv_handleWrite fix φ h w hw
+  | forget w => exact ainv_handleForget fix φ h w hw
+  | tick => exact h
+  | truncate thr => exact ainv_handleTruncate φ h thr
   | flush =>
     apply ainv_flush fix φ h
     rcases hq with hq | hq
@@ -762,35 +998,36 @@ theorem ainv_step {fmt : Format} {crc : Bytes → Nat} {a : Actor} (fix : Bool) 
       exact hq
 
 theorem ainv_foldl {fmt : Format} {crc : Bytes → Nat} (fix : Bool) (φ : Nat → Outcome) (evs : List Ev) (a : Actor)
-    (h : AInv fmt crc a) (hw : ∀ w, Ev.write w ∈ evs → w.Ok fmt crc)
+    (h : AInv fmt crc a) (hw : ∀ ev ∈ evs, ev.Ok fmt crc)
     (hq : fix = true ∨ Actor.quiet φ fmt crc evs a = true) :
-    AInv fmt crc (evs.foldl (Actor.step fix φ fmt crc) a) := by
+    AInv fmt crc (evs.foldl (Actor.step fix false φ fmt crc) a) := by
   induction evs generalizing a with
   | nil => exact h
   | cons ev evs ih =>
     simp only [List.foldl_cons]
     rcases hq with hq | hq
-    · exact ih _ (ainv_step fix φ h ev (fun w hev => hw w (by rw [hev]; simp)) (Or.inl hq))
-        (fun w hwm => hw w (List.mem_cons_of_mem _ hwm)) (Or.inl hq)
+    · exact ih _ (ainv_step fix φ h ev (hw ev (by simp)) (Or.inl hq))
+        (fun e he => hw e (List.mem_cons_of_mem _ he)) (Or.inl hq)
     · cases fix with
       | true =>
-        exact ih _ (ainv_step true φ h ev (fun w hev => hw w (by rw [hev]; simp)) (Or.inl rfl))
-          (fun w hwm => hw w (List.mem_cons_of_mem _ hwm)) (Or.inl rfl)
+        exact ih _ (ainv_step true φ h ev (hw ev (by simp)) (Or.inl rfl))
+          (fun e he => hw e (List.mem_cons_of_mem _ he)) (Or.inl rfl)
       | false =>
         simp only [Actor.quiet, Bool.and_eq_true] at hq
-        exact ih _ (ainv_step false φ h ev (fun w hev => hw w (by rw [hev]; simp)) (Or.inr hq.1))
-          (fun w hwm => hw w (List.mem_cons_of_mem _ hwm)) (Or.inr hq.2)
+        exact ih _ (ainv_step false φ h ev (hw ev (by simp)) (Or.inr hq.1))
+          (fun e he => hw e (List.mem_cons_of_mem _ he)) (Or.inr hq.2)
 
-theorem ainv_runGroup {fmt : Format} {crc : Bytes → Nat} (φ : Nat → Outcome) (m : Nat) (ws : List Write) (a : Actor)
-    (h : AInv fmt crc a) (hw : ∀ w ∈ ws, w.Ok fmt crc) : AInv fmt crc (Actor.runGroup true φ fmt crc m a ws) := by
+theorem ainv_runGroup {fmt : Format} {crc : Bytes → Nat} (φ : Nat → Outcome) (m : Nat) (msgs : List Ev) (a : Actor)
+    (h : AInv fmt crc a) (hw : ∀ ev ∈ msgs, ev.Ok fmt crc) :
+    AInv fmt crc (Actor.runGroup true false φ fmt crc m a msgs) := by
   unfold Actor.runGroup
   apply ainv_flush true φ _ (Or.inl rfl)
-  induction ws generalizing a with
+  induction msgs generalizing a with
   | nil => exact h
-  | cons w ws ih =>
+  | cons ev msgs ih =>
     simp only [List.foldl_cons]
     apply ih
-    · have h1 := ainv_handleWrite true φ h w (hw w (by simp))
+    · have h1 := ainv_step true φ h ev (hw ev (by simp)) (Or.inl rfl)
       split
       · exact ainv_flush true φ h1 (Or.inl rfl)
       · exact h1
@@ -801,30 +1038,42 @@ theorem ainv_runGroup {fmt : Format} {crc : Bytes → Nat} (φ : Nat → Outcome
 /-- ids already answered, then ids still waiting for the group fsync -/
 def Actor.ids (a : Actor) : List Nat := a.acks.map (·.id) ++ a.pending.map (·.1)
 
+/-- ids of the `write_durable` calls of an event (the other messages expect no answer) -/
 def Ev.ids : Ev → List Nat
   | .write w => [w.id]
-  | .flush => []
+  | _ => []
 
-theorem pending_len_step (fix : Bool) (fmt : Format) (φ : Nat → Outcome) (crc : Bytes → Nat)
-    (a : Actor) (ev : Ev) (h : a.pending.length = a.esync) :
-    (Actor.step fix φ fmt crc a ev).pending.length = (Actor.step fix φ fmt crc a ev).esync := by
+theorem pending_len_step (fix tk : Bool) (fmt : Format) (φ : Nat → Outcome) (crc : Bytes → Nat)
+    (a : Actor) (ev : Ev) (h : a.pending.length ≤ a.esync) :
+    (Actor.step fix tk φ fmt crc a ev).pending.length ≤ (Actor.step fix tk φ fmt crc a ev).esync := by
   cases ev with
   | write w =>
     simp only [Actor.step, Actor.handleWrite]
     cases Rot.append fix fmt φ a.rot (Entry.mk' fmt crc w.data w.ts) with
     | mk r oe =>
       cases oe with
-      | none => simp [h]
+      | none => simp; omega
       | some x => simpa using h
+  | forget w =>
+    simp only [Actor.step, Actor.handleForget]
+    cases Rot.append fix fmt φ a.rot (Entry.mk' fmt crc w.data w.ts) with
+    | mk r oe =>
+      cases oe with
+      | none => simp only; omega
+      | some x => simpa using h
+  | tick =>
+    simp only [Actor.step, Actor.handleTick]
+    split <;> exact h
+  | truncate thr => exact h
   | flush =>
     simp only [Actor.step, Actor.flush]
     split
     · exact h
-    · rfl
+    · exact Nat.le_refl _
 
-theorem ids_step_perm (fix : Bool) (fmt : Format) (φ : Nat → Outcome) (crc : Bytes → Nat)
+theorem ids_step_perm (fix tk : Bool) (fmt : Format) (φ : Nat → Outcome) (crc : Bytes → Nat)
     (a : Actor) (ev : Ev) :
-    List.Perm (Actor.step fix φ fmt crc a ev).ids (a.ids ++ ev.ids) := by
+    List.Perm (Actor.step fix tk φ fmt crc a ev).ids (a.ids ++ ev.ids) := by
   cases ev with
   | write w =>
     simp only [Actor.step, Actor.handleWrite, Ev.ids]
@@ -837,6 +1086,16 @@ theorem ids_step_perm (fix : Bool) (fmt : Format) (φ : Nat → Outcome) (crc : 
       | some x =>
         simp only [Actor.ids, List.map_cons, List.cons_append]
         exact (List.perm_append_singleton _ _).symm
+  | forget w =>
+    simp only [Actor.step, Actor.handleForget, Ev.ids, List.append_nil]
+    cases Rot.append fix fmt φ a.rot (Entry.mk' fmt crc w.data w.ts) with
+    | mk r oe => cases oe <;> exact List.Perm.refl _
+  | tick =>
+    simp only [Actor.step, Actor.handleTick, Ev.ids, List.append_nil]
+    split <;> exact List.Perm.refl _
+  | truncate thr =>
+    simp only [Actor.step, Actor.handleTruncate, Ev.ids, List.append_nil]
+    exact List.Perm.refl _
   | flush =>
     simp only [Actor.step, Actor.flush, Ev.ids, List.append_nil]
     split
@@ -852,24 +1111,24 @@ theorem ids_step_perm (fix : Bool) (fmt : Format) (φ : Nat → Outcome) (crc : 
       rw [this]
       exact (List.reverse_perm _).append_right _ |>.trans List.perm_append_comm
 
-theorem ids_foldl_perm (fix : Bool) (fmt : Format) (φ : Nat → Outcome) (crc : Bytes → Nat)
+theorem ids_foldl_perm (fix tk : Bool) (fmt : Format) (φ : Nat → Outcome) (crc : Bytes → Nat)
     (evs : List Ev) (a : Actor) :
-    List.Perm (evs.foldl (Actor.step fix φ fmt crc) a).ids (a.ids ++ evs.flatMap Ev.ids) := by
+    List.Perm (evs.foldl (Actor.step fix tk φ fmt crc) a).ids (a.ids ++ evs.flatMap Ev.ids) := by
   induction evs generalizing a with
   | nil => simp
   | cons ev evs ih =>
     simp only [List.foldl_cons, List.flatMap_cons]
     refine (ih _).trans ?_
     rw [← List.append_assoc]
-    exact (ids_step_perm fix fmt φ crc a ev).append_right _
+    exact (ids_step_perm fix tk fmt φ crc a ev).append_right _
 
-theorem pending_len_foldl (fix : Bool) (fmt : Format) (φ : Nat → Outcome) (crc : Bytes → Nat)
-    (evs : List Ev) (a : Actor) (h : a.pending.length = a.esync) :
-    (evs.foldl (Actor.step fix φ fmt crc) a).pending.length
-      = (evs.foldl (Actor.step fix φ fmt crc) a).esync := by
+theorem pending_len_foldl (fix tk : Bool) (fmt : Format) (φ : Nat → Outcome) (crc : Bytes → Nat)
+    (evs : List Ev) (a : Actor) (h : a.pending.length ≤ a.esync) :
+    (evs.foldl (Actor.step fix tk φ fmt crc) a).pending.length
+      ≤ (evs.foldl (Actor.step fix tk φ fmt crc) a).esync := by
   induction evs generalizing a with
   | nil => exact h
-  | cons ev evs ih => exact ih _ (pending_len_step fix fmt φ crc a ev h)
+  | cons ev evs ih => exact ih _ (pending_len_step fix tk fmt φ crc a ev h)
 
 /-! ## file sequence numbers only grow -/
 
@@ -908,6 +1167,25 @@ theorem wseq_ioCreate (φ : Nat → Outcome) {w : World} {n : Nat} (h : WSeq w n
   cases φ w.io
   · exact hnew.1
   all_goals exact hnew.2
+
+theorem wseq_ioDelete (φ : Nat → Outcome) {w : World} {n : Nat} (k : Nat) (h : WSeq w n) :
+    WSeq (ioDelete φ w k).1 n := by
+  unfold ioDelete
+  cases φ w.io <;> exact h
+
+theorem wseq_truncLoop (φ : Nat → Outcome) {n : Nat} (victims : List Nat) (w : World) (h : WSeq w n) :
+    WSeq (truncLoop φ victims w) n := by
+  induction victims generalizing w with
+  | nil => exact h
+  | cons k rest ih =>
+    simp only [truncLoop]
+    have h1 := wseq_ioDelete φ k h
+    cases hd : ioDelete φ w k with
+    | mk w' ok =>
+      rw [hd] at h1
+      cases ok
+      · exact h1
+      · exact ih w' h1
 
 def RSeq (r : Rot) : Prop := WSeq r.w r.seq
 
@@ -991,9 +1269,9 @@ theorem rseq_sync (fix : Bool) (φ : Nat → Outcome) {r : Rot} (h : RSeq r) :
     | none => exact ⟨h, rfl⟩
     | some c => exact ⟨wseq_ioSync φ c h, rfl⟩
 
-theorem rseq_step (fix : Bool) (fmt : Format) (φ : Nat → Outcome) (crc : Bytes → Nat) (a : Actor)
+theorem rseq_step (fix tk : Bool) (fmt : Format) (φ : Nat → Outcome) (crc : Bytes → Nat) (a : Actor)
     (ev : Ev) (h : RSeq a.rot) :
-    RSeq (Actor.step fix φ fmt crc a ev).rot ∧ a.rot.seq ≤ (Actor.step fix φ fmt crc a ev).rot.seq := by
+    RSeq (Actor.step fix tk φ fmt crc a ev).rot ∧ a.rot.seq ≤ (Actor.step fix tk φ fmt crc a ev).rot.seq := by
   cases ev with
   | write w =>
     simp only [Actor.step, Actor.handleWrite]
@@ -1002,6 +1280,22 @@ theorem rseq_step (fix : Bool) (fmt : Format) (φ : Nat → Outcome) (crc : Byte
     | mk r oe =>
       rw [hr] at this
       cases oe <;> exact this
+  | forget w =>
+    simp only [Actor.step, Actor.handleForget]
+    have := rseq_append fix fmt φ (Entry.mk' fmt crc w.data w.ts) h
+    cases hr : Rot.append fix fmt φ a.rot (Entry.mk' fmt crc w.data w.ts) with
+    | mk r oe =>
+      rw [hr] at this
+      cases oe <;> exact this
+  | tick =>
+    simp only [Actor.step, Actor.handleTick]
+    split
+    · have := rseq_sync fix φ h
+      exact ⟨this.1, Nat.le_of_eq this.2.symm⟩
+    · exact ⟨h, Nat.le_refl _⟩
+  | truncate thr =>
+    simp only [Actor.step, Actor.handleTruncate, Rot.truncate]
+    exact ⟨wseq_truncLoop φ _ _ h, Nat.le_refl _⟩
   | flush =>
     simp only [Actor.step, Actor.flush]
     split
@@ -1009,15 +1303,15 @@ theorem rseq_step (fix : Bool) (fmt : Format) (φ : Nat → Outcome) (crc : Byte
     · have := rseq_sync fix φ h
       exact ⟨this.1, Nat.le_of_eq this.2.symm⟩
 
-theorem rseq_foldl (fix : Bool) (fmt : Format) (φ : Nat → Outcome) (crc : Bytes → Nat)
+theorem rseq_foldl (fix tk : Bool) (fmt : Format) (φ : Nat → Outcome) (crc : Bytes → Nat)
     (evs : List Ev) (a : Actor) (h : RSeq a.rot) :
-    RSeq (evs.foldl (Actor.step fix φ fmt crc) a).rot ∧
-      a.rot.seq ≤ (evs.foldl (Actor.step fix φ fmt crc) a).rot.seq := by
+    RSeq (evs.foldl (Actor.step fix tk φ fmt crc) a).rot ∧
+      a.rot.seq ≤ (evs.foldl (Actor.step fix tk φ fmt crc) a).rot.seq := by
   induction evs generalizing a with
   | nil => exact ⟨h, Nat.le_refl _⟩
   | cons ev evs ih =>
     simp only [List.foldl_cons]
-    obtain ⟨h1, h2⟩ := rseq_step fix fmt φ crc a ev h
+    obtain ⟨h1, h2⟩ := rseq_step fix tk fmt φ crc a ev h
     obtain ⟨h3, h4⟩ := ih _ h1
     exact ⟨h3, Nat.le_trans h2 h4⟩
 
